@@ -333,14 +333,68 @@ Definition is_digit_n (c : N) : bool := (48 <=? c) && (c <=? 57).
 (* a styling sequence of the dumper: ESC [ digits m *)
 Definition own_sgr (s : text) : bool :=
   match s with
-  | 27 :: 91 :: r =>
-    match rev r with
-    | 109 :: d => negb (match d with [] => true | _ => false end) && forallb is_digit_n d
-    | _ => false
-    end
+  | a :: b :: r =>
+    (a =? 27) && (b =? 91)
+    && match rev r with
+       | l :: d => (l =? 109) && negb (match d with [] => true | _ => false end) && forallb is_digit_n d
+       | [] => false
+       end
   | _ => false
   end.
 Definition ok_tok (vt : bool) (k : tok) : bool :=
   match k with Ch c => okc c | Sgr s => vt && own_sgr s end.
 Definition ok_tt (vt : bool) (t : ttext) : bool := forallb (ok_tok vt) t.
 Definition ok_text (t : text) : bool := forallb okc t.
+
+(* ---- contracts about code that is not modelled, as executable checks (used by the
+   correspondence on every case, and as hypotheses of the theorems) *)
+(* mitmproxy_rs.syntax_highlight.highlight: the chunks concatenate to its input *)
+Definition pm_ok (m : pmsg) : bool :=
+  match pm_chunks m with
+  | [] => true
+  | cs => text_eqb (List.concat (map snd cs)) (prettify_message m)
+  end.
+(* human.pretty_size prints digits, a dot and a unit *)
+Definition resp_ok (x : resp) : bool :=
+  pm_ok (rs_msg x) && match rs_size x with Some s => ok_text s | None => true end.
+
+(* ---- the echo-path algebra produced by harness/translators/dumper_paths.py (coq/Gen/DumperPaths.v):
+   what reaches Dumper.echo at one call site, as a function of flow fields. *)
+Inductive sexp :=
+| Empty
+| Lit (s : text)              (* string constant of the source *)
+| Num (name : string)         (* integer, enum member name, entry of a fixed table *)
+| Raw (name : string)         (* anything read from the flow: attacker-controlled text *)
+| EscB (name : string)        (* strutils.bytes_to_escaped_str of attacker-controlled bytes *)
+| Esc (e : sexp)              (* strutils.escape_control_characters(e) *)
+| Sty (e : sexp)              (* Dumper.style(e, constant keyword arguments) *)
+| Ind (e : sexp)              (* indent(n, e) *)
+| Sub (e : sexp)              (* slice, cut_after_n_lines, one chunk of the highlighter *)
+| Cat (a b : sexp)
+| Alt (a b : sexp)            (* either, depending on a branch *)
+| Rep (sep : text) (e : sexp) (* sep.join of any number of instances of e *).
+
+Fixpoint sanitized (e : sexp) : bool :=
+  match e with
+  | Empty => true
+  | Lit s => ok_text s
+  | Num _ => true
+  | Raw _ => false
+  | EscB _ => true
+  | Esc _ => true
+  | Sty e | Ind e | Sub e => sanitized e
+  | Cat a b | Alt a b => sanitized a && sanitized b
+  | Rep sep e => ok_text sep && sanitized e
+  end.
+
+(* the echo call sites this model covers: method name . index of the call in the method *)
+Definition sites : list string :=
+  ["_echo_headers.0"; "_echo_trailers.0"; "_echo_message.0"; "_echo_message.1"; "_echo_message.2";
+   "_echo_message.3"; "_echo_request_line.0"; "_echo_response_line.0"; "echo_flow.0";
+   "websocket_message.0"; "websocket_end.0"; "websocket_end.1"; "_proto_error.0"; "_proto_message.0";
+   "_echo_dns_query.0"; "dns_response.0"; "dns_error.0"]%string.
+
+(* str.translate with a table mapping every listed code point to a dot *)
+Definition in_table (tbl : list N) (c : N) : bool := existsb (N.eqb c) tbl.
+Definition translate_with (tbl : list N) (t : text) : text :=
+  map (fun c => if in_table tbl c then 46 else c) t.
